@@ -40,6 +40,7 @@ SimStep ==
   \/ ShutCh # {} /\ \E c \in Pick(ShutCh) : OpenLease(c)
   \/ RandomElement(1..(IF Focus = "dup" THEN 2 ELSE 3)) = 1 /\ \E c \in Pick(Chans) : CloseLease(c)
   \/ RandomElement(1..(IF Focus = "dup" THEN 5 ELSE 8)) = 1 /\ CloseDB
+  \/ OpenCh # {} /\ RandomElement(1..(IF Focus = "dup" THEN 2 ELSE 4)) = 1 /\ \E c \in Pick(OpenCh) : CloseLease(c)
   \/ OpenDB
   \* ---- appends
   \/ OpenCh # {} /\ \E c \in Pick(OpenCh), m \in Pick(Modes) : DoAppend(c, m, 0, RandBatch)
@@ -76,19 +77,24 @@ SimStep ==
   \/ OpenCh # {} /\ \E c \in Pick(OpenCh) : CleanRecs(c) # {} /\
         \E m \in Pick(Modes), r \in Pick(CleanRecs(c)), id \in Pick(Fresh) :
            DoAppend(c, m, 0, << r, [r EXCEPT !.id = id] >>)
+  \/ OpenCh # {} /\ \E c \in Pick(OpenCh) : LET K == {r \in CleanRecs(c) : HasKey(r)} IN K # {} /\ Cardinality(Fresh) >= 3 /\
+        \E m \in Pick(Modes), r0 \in Pick(CleanRecs(c)), r \in Pick(K) :
+           \E id1 \in Pick(Fresh \ {r0.id}) : \E id2 \in Pick(Fresh \ {r0.id, id1}) :
+             (~HasKey(r0) \/ KeyOf(r0) # KeyOf(r)) /\
+             DoAppend(c, m, 0, << r0, [r EXCEPT !.id = id1], [r EXCEPT !.id = id2] >>)
   \* pinned base (typed): right and wrong
   \/ OpenCh # {} /\ \E c \in Pick(OpenCh) : CleanRecs(c) # {} /\
         \E r \in Pick(CleanRecs(c)), b \in Pick({0, 1, 1, 2}) : DoAppend(c, "strict", Leo(c) + b, Seq1(r))
   \/ OpenCh # {} /\ \E c \in Pick(OpenCh) : DoAppend(c, "strict", 0, << >>)
   \* ---- follower applies
   \/ OpenCh # {} /\ \E c \in Pick(OpenCh) : CleanRecs(c) # {} /\
-        \E m \in Pick({"strict", "trusted"}), r \in Pick(CleanRecs(c)), hw \in Pick({0, 1, Leo(c), Leo(c) + 1, Leo(c) + 2}) :
+        \E m \in Pick({"strict", "trusted"}), r \in Pick(CleanRecs(c)), hw \in Pick({0, 0, Leo(c), Leo(c) + 1, Leo(c) + 2}) :
            DoApply(c, m, 0, Seq1(r), hw)
   \/ OpenCh # {} /\ \E c \in Pick(OpenCh) : CleanRecs(c) # {} /\
-        \E r1 \in Pick(CleanRecs(c)), r2 \in Pick(CleanRecs(c)), b \in Pick({0, 1, 1, 1, 2}), hw \in Pick({0, Leo(c), Leo(c) + 1, Leo(c) + 2, Leo(c) + 3}) :
+        \E r1 \in Pick(CleanRecs(c)), r2 \in Pick(CleanRecs(c)), b \in Pick({0, 1, 1, 1, 2}), hw \in Pick({0, 0, Leo(c) + 1, Leo(c) + 2, Leo(c) + 3}) :
            DoApply(c, "trusted", IF b = 0 THEN 0 ELSE Leo(c) + b, << r1, r2 >>, hw)
-  \/ OpenCh # {} /\ \E c \in Pick(OpenCh) : \E m \in Pick({"strict", "trusted"}), hw \in Pick({0, Leo(c)}) :
-        DoApply(c, m, 0, RandBatch, hw)
+  \/ OpenCh # {} /\ Fresh # {} /\ \E c \in Pick(OpenCh) : \E m \in Pick({"strict", "trusted"}) :
+        DoApply(c, m, 0, FreshBatch, 0)
   \/ OpenCh # {} /\ \E c \in Pick(OpenCh) : \E hw \in Pick({1, Leo(c), Leo(c) + 1}) : DoApply(c, "trusted", 0, << >>, hw)
   \* ---- truncation
   \/ OpenCh # {} /\ \E c \in Pick(OpenCh) : \E to \in Pick(0..(Leo(c) + 1)) : Truncate(c, to)
